@@ -48,7 +48,7 @@ impl Prop for C16 {
         "C16"
     }
     fn cases(&self, tier: Tier) -> u64 {
-        tier.pick(2_000_000, 40_000_000)
+        tier.pick(2_000_000, 100_000_000)
     }
     fn strategy(&self, _tier: Tier) -> BoxedStrategy<Case> {
         let lat = prop_oneof![
